@@ -21,6 +21,12 @@ CLAIMS = {
         text="The per-character behaviour of allows is extracted as a one-state transducer that is exact for all labels (first offender wins, code-point positions, the property just computed, rule invoked with the whole label and the same index) and compared letter by letter with RFC 8264 §4; the registry clause is decided for all 2^32 code points by interval partition.",
         ref="§4 C02",
     ),
+    "C03": dict(
+        technique="registry and own-sets by interval partition; VIRAMA/script/joining tables vs UCD 6.3.0 on every code point (L5) and predicate binding (L4); per-rule path enumeration with exact relative positions, shift-induction for the two ZWNJ scans and widening for whole-label scans, each returning path judged by a three-valued transcription of RFC 5892 Appendix A",
+        category="other",
+        text="For each of the nine rules every returning path is compared with the RFC's own decision procedure evaluated on the facts the path established (which neighbours exist, which table predicates hold, which constants the code point equals): the RFC answer must be determined by those facts and equal the returned value, for every label and position. Scan loops are closed by an inductive argument checked on the MIR state, not by unrolling.",
+        ref="§4 C03",
+    ),
     "C04": dict(technique="pipeline extraction: abstract interpretation with the rule implementations as Ok/Err oracles and content tags for strings; extracted path set compared with the RFC 8265 §3 pipeline", category="other", text="All paths of prepare/enforce of both username profiles are enumerated (which rule ran on which string, every failure exit and the error it returns, the string returned) and must equal the specified pipeline; covers every input string because the methods observe strings only through the leaf rules.", ref="§4 C04"),
     "C05": dict(technique="pipeline extraction (as C04) for OpaqueString prepare/enforce against RFC 8265 §4.2", category="other", text="Same engine as C04: validation on the untouched input, space mapping, NFC, non-empty, nothing else; the leaves' own semantics are C12/C02/C14.", ref="§4 C05"),
     "C06": dict(technique="pipeline extraction of Nickname prepare/enforce and of the closure handed to stabilize, against RFC 8266 §2", category="other", text="enforce must be stabilize(input, closure) returned unchanged and the closure body must be the whole rule set (validate, space rule, NFKC, non-empty; no case mapping). Fixed point / iteration bound are C13, the space rule C12.", ref="§4 C06"),
@@ -104,7 +110,7 @@ def main():
     print("MANIFEST: %d checks, %d not_applicable" % (len(checks), len(na)))
 
 
-NA = {"C03": "check still under construction in this session (context-rule decision tables, DESIGN.md §4 C03); its data clauses (VIRAMA/script/joining tables = UCD 6.3.0) are already covered by C15 and the registry clause by C02"}
+NA = {"C03x": "check still under construction in this session (context-rule decision tables, DESIGN.md §4 C03); its data clauses (VIRAMA/script/joining tables = UCD 6.3.0) are already covered by C15 and the registry clause by C02"}
 
 if __name__ == "__main__":
     main()
